@@ -175,6 +175,51 @@ def runK (t : List String) : String :=
     | _, _, _, _, _, _ => "bad-case"
   | _ => "bad-case"
 
+def parsePfTok (l : List String) : Option Dx9PixelFormat :=
+  match l with
+  | ["F", cc] => do some (.fourCC (← u32? cc))
+  | ["M", fl, bc, r, g, b, a] => do
+    some (.mask { flags := ← u32? fl, rgbBitCount := ← RgbBitCount.ofU32 (← u32? bc),
+                  rMask := ← u32? r, gMask := ← u32? g, bMask := ← u32? b, aMask := ← u32? a })
+  | _ => none
+
+/-- struct-level setters: S:w:h D:w:h:d|- M:m(>=1) | dx9: C:faces(u8) P:F:cc P:M:.. | dx10: G:dxgi R:dim Q:misc
+A:array L:alpha -/
+def parseStructOp (s : String) : Option StructOp :=
+  match splitColon s with
+  | ["S", a, b] => do some (.withSize (← u32? a) (← u32? b))
+  | ["D", a, b, c] => do some (.withDimensions (← u32? a) (← u32? b) (← parseOptNat c))
+  | ["M", m] => do let n ← u32? m; if n = 0 then none else some (.withMipmapCount n)
+  | ["C", f] => do let n ← nat? f; if n < 256 then some (.withCubeMapFaces n) else none
+  | "P" :: rest => (parsePfTok rest).map .withPixelFormat
+  | ["G", c] => do let n ← u32? c; if dxgiValid n then some (.withDxgiFormat n) else none
+  | ["R", d] => do some (.withResourceDimension (← ResDim.ofU32 (← u32? d)))
+  | ["Q", m] => do some (.withMiscFlags (← u32? m))
+  | ["A", a] => do some (.withArraySize (← u32? a))
+  | ["L", a] => do some (.withAlphaMode (← AlphaMode.ofU32 (← u32? a)))
+  | _ => none
+
+/-- `KS <I|V|C> <9:F:cc | 9:M:.. | 10:dxgi> w h d op...`: struct-level constructor + setter chain -/
+def runKS (t : List String) : String :=
+  match t with
+  | c :: st :: w :: h :: d :: opsS =>
+    let k? : Option CtorKind := match c with
+      | "I" => some .image | "V" => some .volume | "C" => some .cubeMap | _ => none
+    let start? : Option (CtorKind → Nat → Nat → Nat → Header) :=
+      match splitColon st with
+      | "9" :: rest => (parsePfTok rest).map fun p k w h d => .dx9 (Dx9Header.new k w h d p)
+      | ["10", code] => do
+        let n ← u32? code
+        if dxgiValid n then some (fun k w h d => .dx10 (Dx10Header.new k w h d n)) else none
+      | _ => none
+    match k?, start?, u32? w, u32? h, u32? d, opsS.mapM parseStructOp with
+    | some k, some mk, some w, some h, some d, some ops =>
+      match (mk k w h d).applyStructOps ops with
+      | none => "bad-case"
+      | some hd => s!"ok {fmtHeader hd} {roundtripStr hd}"
+    | _, _, _, _, _, _ => "bad-case"
+  | _ => "bad-case"
+
 def runX (t : List String) : String :=
   match t with
   | [hs] =>
@@ -223,6 +268,7 @@ def runC09 (line : String) : String :=
   match toks line with
   | "P" :: t => runP t
   | "K" :: t => runK t
+  | "KS" :: t => runKS t
   | "X" :: t => runX t
   | "TD" :: t => runTD t
   | "TF" :: t => runTF t
